@@ -1,3 +1,9 @@
 (* REGENERATED from src/mxlpy/model.py (Model._create_cache) by harness/c13.py; do not edit.
-   true = the method body is statement-for-statement the one modelled in Cache.v *)
+   gen_cache_shape: true = the method body is statement-for-statement the one modelled in Cache.v;
+   gen_split_seed: what the closure all_parameter_names starts from (CacheData.v);
+   gen_init_source: initial_conditions read from the values of the time-zero pass, or evaluated again (CacheDraw.v) *)
+Inductive seed_kind := SeedPar | SeedParData | SeedUnknown.
+Inductive init_kind := InitFromPass | InitAgain | InitUnknown.
 Definition gen_cache_shape : bool := true.
+Definition gen_split_seed : seed_kind := SeedPar.
+Definition gen_init_source : init_kind := InitFromPass.
